@@ -213,11 +213,28 @@ def run_buffer_premise(rep, facts):
             (rep.ok if i["status"] == "ok" else rep.violation)("R1.6", i["instance"], i["detail"], i["loc"])
 
 
+def run_cross_record(rep, facts):
+    """R1.7: "does not depend on how the Params payload is cut into records": a pair that crosses a record boundary is carried over in the
+    heap-side pair buffer; the framing code and the decoder must agree on how many input bytes went there (rules of C06, re-evaluated)."""
+    from . import c06
+    rep.rule("R1.7", "cross-record reassembly accounting: rec_end is passed exactly for a complete payload, and parse_stream / parse_buffered report as consumed "
+                     "exactly the bytes they moved into the pair buffer or decoded (R6.4, R6.5)")
+    sr = check.Report("tmp", "quick")
+    c06.run_record_end(sr, facts)
+    n = 0
+    for i in sr.instances:
+        if i["rule"] in ("R6.4", "R6.5"):
+            n += 1
+            (rep.ok if i["status"] == "ok" else rep.violation)("R1.7", i["instance"], i["detail"], i["loc"])
+    rep.floor("R1.7", "record-end rules", n, 2)
+
+
 def main(rep, tier):
     f = F.load(("async", "http"))
     rep.configs.append({"features": "async,http", "profile": "debug", "bodies": len(f.bodies)})
     check.guard(rep, "R1", run, f)
     check.guard(rep, "R1.6", run_buffer_premise, f)
+    check.guard(rep, "R1.7", run_cross_record, f)
     rep.floor("R1", "rule instances", len([i for i in rep.instances if i["status"] == "ok"]), 10)
     import check as _c
     _c.witnesses(rep, "C01", f)
